@@ -92,6 +92,13 @@ def hier_models(rnd, n):
             specs.append({'name': 'RC', 'kind': 'obj', 'bases': ['RB'], 'extra': False, 'registered': True,
                           'params': [{'name': 'kind', 'type': 'str', 'required': True}],
                           'recognize': [('attrvalue', 'kind', 'RC')]})
+        if rnd.random() < 0.4 or _ < 2:
+            # abstract by ABC listed AFTER another base (a mix-in or a registered class): never instantiated, its concrete
+            # subclass is
+            specs.append({'name': 'AB', 'kind': 'obj', 'bases': ['Mixin', 'ABC'], 'extra': False, 'registered': True,
+                          'params': [{'name': 'name', 'type': 'str', 'required': True}]})
+            specs.append({'name': 'AC', 'kind': 'obj', 'bases': ['AB'], 'extra': False, 'registered': True,
+                          'params': [{'name': 'name', 'type': 'str', 'required': True}, {'name': 'radius', 'type': 'int', 'required': True}]})
         yield specs
 
 
@@ -157,6 +164,14 @@ def tie(ctx, model_ok=True):
                         other = rnd.choice([x for x in ['PC', 'PD'] if x != cls])
                         node.tag = '!' + other
                         desc = 'directed-fail:conflicting-tag'
+                if 'AB' in names and rnd.random() < 0.2:
+                    S = loadcase.S
+                    concrete = rnd.random() < 0.5
+                    node = loadcase.M([(S('name'), S('n'))] + ([(S('radius'), S('3', 'int'))] if concrete else []))
+                    tyspec = rnd.choice([('class', 'AB'), ('optional', ('class', 'AB')), ('list', 0, ('class', 'AB'))])
+                    if tyspec[0] == 'list':
+                        node = loadcase.Q([node])
+                    desc = 'directed:AC' if concrete else 'directed-abstract'
                 if 'QB' in names and rnd.random() < 0.3:
                     cls = rnd.choice(['QB', 'QC', 'QD', 'RB', 'RC'])
                     S = loadcase.S
@@ -245,6 +260,8 @@ def tie(ctx, model_ok=True):
             got = c.outcome[1][0] if isinstance(c.outcome[1], list) and c.outcome[1] else c.outcome[1]
             if type(got).__name__ != want:
                 return ('most-derived:wrong-class', f'{c.text!r} as {c.tyspec}: most-derived match is {want}, loaded a {type(got).__name__}')
+        if c.desc == 'directed-abstract' and c.outcome[0] == 'ok':
+            return ('instantiated:abstract', f'{c.text!r} as {c.tyspec}: only the abstract class AB(Mixin, ABC) matches, yet load returned {c.outcome[1]!r}')
         if c.desc.startswith('directed-fail') and c.outcome[0] == 'ok':
             return (c.desc.replace('directed-fail', 'tag-ignored'),
                     f'{c.text!r} as PB: the tag names an unknown or incompatible class, yet load returned a {type(c.outcome[1]).__name__}')
@@ -285,7 +302,7 @@ def find_bad_class(model, v):
         n = type(v).__name__
         if n not in names:
             return ('unregistered', n)
-        if util.is_abstract(type(v)):
+        if oracles.is_abstract_doc(type(v)):
             return ('abstract', n)
         for x in v._verif_kwargs.values():
             b = find_bad_class(model, x)
